@@ -251,7 +251,7 @@ class Interrupted(Exception):
     pass
 
 
-EXC = (sqlite3.OperationalError, Interrupted, OSError)
+EXC = (sqlite3.OperationalError, Interrupted, OSError, sqlite3.InterfaceError, sqlite3.ProgrammingError)
 
 
 def atomic_body(t, via_logger):
